@@ -116,10 +116,8 @@ func makeFn(fd *fndesc, rec *recorder, retErr bool) any {
 			if a.Type() == hReqType {
 				if a.Interface().(*jrpc2.Request) == rec.req {
 					enc = append(enc, "REQ")
-				} else {
-					enc = append(enc, "REQ?")
+					continue
 				}
-				continue
 			}
 			enc = append(enc, hexf(encValue(a)))
 		}
@@ -242,7 +240,7 @@ func c15Oracle(arg *tnode, view pview, raw string, withFields bool) string {
 			ents = append(ents, fmt.Sprintf("d|%d|%s|%s", b2i(s), view.String(), ansOf(pv, ok, withFields)))
 		}
 	}
-	return strings.Join(ents, ";")
+	return strings.Join(ents, "&")
 }
 
 func b2i(b bool) int {
@@ -311,7 +309,7 @@ func c15W(w *caseWriter, fnS, opts, ret, rawhex string) {
 			oracle = c15Oracle(arg, view, raw, false)
 			if ok, names, _ := docFields(arg); ok {
 				if ents := translatedOracle(buildType(arg.pointee()), names, view, false); ents != nil {
-					oracle += ";" + strings.Join(ents, ";")
+					oracle += "&" + strings.Join(ents, "&")
 				}
 			}
 		}); p != "" {
@@ -566,7 +564,7 @@ func paramsFor(r *rng, arg *tnode, tier string) []string {
 
 var c15Corpus = []string{
 	// the documented schemes
-	"F0(c,)(e,)", "F0(c,)(i,)", "F0(c,)(i,e,)", "F0(c,s,)(e,)", "F0(c,Li,)(s,)", "F0(c,PS{41:61:x:i;};)(s,e,)",
+	"F0(c,)(e,)", "F0(c,)(i,)", "F0(c,)(i,e,)", "F0(c,s,)(e,)", "F0(c,Li,)(s,)", "F0(c,PS{41:61:x:i;},)(s,e,)",
 	"F0(c,Pq,)(e,)", "F0(c,Pq,)(i,)", "F0(c,Pq,)(i,e,)", "F0(c,Pq,)(a,e,)",
 	// not documented
 	"NIL", "Vi", "VS{}", "F0()(e,)", "F0(i,)(e,)", "F0(c,i,i,)(e,)", "F1(c,Li,)(e,)", "F0(c,i,)()", "F0(c,i,)(i,i,)",
